@@ -236,31 +236,35 @@ def main():
     flat = re.sub(r"\s+", " ", vb)
     if not re.search(r"input\s*\.\s*len\s*\(\s*\)\s*>\s*MAX_KIP_INPUT_LEN", flat):
         die("parser.rs: validate_parser_budget: length test `input.len() > MAX_KIP_INPUT_LEN` not found")
-    if not re.search(r"stack\s*\.\s*len\s*\(\s*\)\s*>\s*MAX_KIP_NESTING_DEPTH", flat):
-        die("parser.rs: validate_parser_budget: depth test `stack.len() > MAX_KIP_NESTING_DEPTH` not found")
     if not re.search(r"for\s+\w+\s+in\s+input\s*\.\s*chars\s*\(\s*\)", flat):
         die("parser.rs: validate_parser_budget: does not iterate `input.chars()`")
-    m = re.findall(r"((?:" + CHAR + r"\s*\|\s*)*" + CHAR + r")\s*=>\s*\{\s*stack\s*\.\s*push", flat)
+    # the stack is whatever local is pushed to (names of locals are not part of the meaning)
+    m = re.findall(r"((?:" + CHAR + r"\s*\|\s*)*" + CHAR + r")\s*=>\s*\{\s*(\w+)\s*\.\s*push\s*\(", flat)
     if len(m) != 1:
         die(f"parser.rs: validate_parser_budget: expected one push arm, found {len(m)}")
     openers = [unchar(x.group(0)) for x in re.finditer(CHAR, m[0][0])]
+    stk = m[0][-1]
+    if not re.search(stk + r"\s*\.\s*len\s*\(\s*\)\s*>\s*MAX_KIP_NESTING_DEPTH", flat):
+        die("parser.rs: validate_parser_budget: depth test `<stack>.len() > MAX_KIP_NESTING_DEPTH` not found")
     closers = re.findall(
-        r"(" + CHAR + r")\s*=>\s*\{\s*if\s+matches!\s*\(\s*stack\s*\.\s*last\s*\(\s*\)\s*,\s*Some\s*\(\s*(" + CHAR
-        + r")\s*\)\s*\)\s*\{\s*stack\s*\.\s*pop\s*\(\s*\)\s*;\s*\}\s*\}", flat)
+        r"(" + CHAR + r")\s*=>\s*\{\s*if\s+matches!\s*\(\s*" + stk + r"\s*\.\s*last\s*\(\s*\)\s*,\s*Some\s*\(\s*(" + CHAR
+        + r")\s*\)\s*\)\s*\{\s*" + stk + r"\s*\.\s*pop\s*\(\s*\)\s*;\s*\}\s*\}", flat)
     pairs = [(unchar(c[0]), unchar(c[2])) for c in closers]
     if not pairs:
-        die("parser.rs: validate_parser_budget: no `closer => if matches!(stack.last(), Some(opener)) pop` arm found")
+        die("parser.rs: validate_parser_budget: no `closer => if matches!(<stack>.last(), Some(opener)) pop` arm found")
     if len(set(p[0] for p in pairs)) != len(pairs):
         die("parser.rs: validate_parser_budget: a closer has two arms")
-    if flat.count("stack.pop") != len(pairs) or flat.count("stack.push") != 1:
+    if len(re.findall(stk + r"\s*\.\s*pop\b", flat)) != len(pairs) or len(re.findall(stk + r"\s*\.\s*push\b", flat)) != 1:
         die("parser.rs: validate_parser_budget: push/pop sites do not match the recognised arms")
-    if not re.search(r"if\s+in_line_comment\s*\{\s*if\s+\w+\s*==\s*'\\n'\s*\{\s*in_line_comment\s*=\s*false", flat):
+    pairs.sort(key=lambda p: p[0])  # the order of the arms carries no meaning
+    if not re.search(r"if\s+(\w+)\s*\{\s*if\s+\w+\s*==\s*'\\n'\s*\{\s*\1\s*=\s*false", flat):
         die("parser.rs: validate_parser_budget: line-comment exit on '\\n' not found")
-    if not re.search(r"'\\\\'\s*=>\s*escaped\s*=\s*true", flat):
-        die("parser.rs: validate_parser_budget: escape arm `'\\\\' => escaped = true` not found")
-    if not re.search(r"'\"'\s*=>\s*in_string\s*=\s*false", flat) or not re.search(r"'\"'\s*=>\s*in_string\s*=\s*true", flat):
+    if not re.search(r"'\\\\'\s*=>\s*\w+\s*=\s*true", flat):
+        die("parser.rs: validate_parser_budget: escape arm `'\\\\' => <escaped> = true` not found")
+    ms = re.search(r"'\"'\s*=>\s*(\w+)\s*=\s*false", flat)
+    if not ms or not re.search(r"'\"'\s*=>\s*" + ms.group(1) + r"\s*=\s*true", flat):
         die("parser.rs: validate_parser_budget: string open/close arms not found")
-    if not re.search(r"if\s+\w+\s*==\s*'/'\s*\{\s*if\s+prev_slash\s*\{\s*in_line_comment\s*=\s*true", flat):
+    if not re.search(r"if\s+\w+\s*==\s*'/'\s*\{\s*if\s+(\w+)\s*\{\s*\w+\s*=\s*true\s*;\s*\1\s*=\s*false", flat):
         die("parser.rs: validate_parser_budget: `//` detection not found")
 
     # ---- skip_ws_and_comments ---------------------------------------------------------------
